@@ -1252,6 +1252,25 @@ def _fails_fresh(snippet: str) -> bool:
         return False
 
 
+def _cache_differs(cache, raw):
+    """the module cache against the content of the JSON file; robust against entries that became arrays, views, other containers"""
+    try:
+        if not isinstance(cache, dict) or set(cache) != set(raw):
+            return True
+        for k, v in raw.items():
+            cv = cache[k]
+            if not isinstance(cv, dict) or set(cv) != set(v):
+                return True
+            for kk, vv in v.items():
+                a, b = cv[kk], vv
+                # by value: a list that became an array with the same numbers is not a changed table
+                if not np.array_equal(np.asarray(a, dtype=float), np.asarray(b, dtype=float)):
+                    return True
+        return False
+    except Exception:  # noqa: BLE001
+        return True
+
+
 def _check_load_history(ctx: Ctx, cb, utils, raw_float, history, where):
     """The property clause 'every shipped per-element parameter set loads as matching arrays of positive exponents'
     (and unknown / ill-typed elements are rejected) along a history of calls. history: [(element, cold?)]."""
@@ -1266,8 +1285,8 @@ def _check_load_history(ctx: Ctx, cb, utils, raw_float, history, where):
             ok = tag == exp[0]
             # round 3 (class 9): what the library keeps is not changed by a call, whatever key was asked for
             cache = cb._ATOMIC_GAUSS_PARAMS_CACHE
-            if ok and ((cache is not None and cache != raw_float) or (dict(utils.sym2num), dict(utils.num2sym)) != maps):
-                what = "the module cache _ATOMIC_GAUSS_PARAMS_CACHE is no longer the content of atomic_gauss_params.json" if (cache is not None and cache != raw_float) \
+            if ok and ((cache is not None and _cache_differs(cache, raw_float)) or (dict(utils.sym2num), dict(utils.num2sym)) != maps):
+                what = "the module cache _ATOMIC_GAUSS_PARAMS_CACHE is no longer the content of atomic_gauss_params.json" if (cache is not None and _cache_differs(cache, raw_float)) \
                     else "grid.utils.sym2num / num2sym were changed"
                 extra = sorted(set(cache) - set(raw_float)) if isinstance(cache, dict) else None
                 hsrc = "[" + ", ".join(f"({_py_expr(x)}, {c_})" for x, c_ in history[:k + 1]) + "]" if all(_py_expr(x) is not None for x, _ in history[:k + 1]) else None
